@@ -33,11 +33,18 @@ def nontrivial(op, mres, tag):
 
 def branch(op, mres, tag):
     f = op.split()
+    if f[1] == "graft":
+        return "e2e-graft:" + mres
     return "e2e-%s:%s" % (f[2], " ".join(mres.split(" ")[:2]) if not mres.startswith("ok") else "ok x%d" % len(f[5].split(",")))
 
 
 def predicate(prop, op, il, mres, tag):
     f = op.split()
+    if f[1] == "graft":
+        if il.startswith("ok") and il != "ok rejected":
+            return ("Relic.Props.C02 (graft, jar)", "ok rejected",
+                    "a signature block grafted from another archive was accepted: " + il)
+        return None
     if il.startswith("FAIL") or il.startswith("panic") or il.startswith("crash"):
         thm = {"C01": "Relic.Props.C01 (sign then verify, %s)", "C03": "Relic.Props.C03 (payload preserved / valid package, %s)",
                "C08": "Relic.Props.C08 (re-sign replaces, %s)"}.get(prop, "Relic.Props.%s (%%s)" % prop) % f[2]
